@@ -412,7 +412,7 @@ class FuncTranslator:
                 root = root.value
             if isinstance(root, ast.Name) and root.id in LIB_MODULES and root.id not in self.scope:
                 st, vs = self.eval_args(c)
-                if (root.id == 'copy' and m in ('copy', 'deepcopy')) or m in FRESH_RESULT or root.id in ('os', 'shutil', 'logging', 'subprocess', 're', 'tempfile'):
+                if (root.id == 'copy' and m in ('copy', 'deepcopy')) or m in FRESH_RESULT or root.id in ('os', 'shutil', 'logging', 'subprocess', 're', 'tempfile', 'nestedmatcher'):
                     s2, t = self.fresh()
                 else:
                     s2, t = self.anyval()
